@@ -1007,6 +1007,10 @@ func (s *server) MutateRow(ctx context.Context, req *btpb.MutateRowRequest) (*bt
 		return nil, status.Errorf(codes.NotFound, "table %q not found", req.TableName)
 	}
 
+	if len(req.RowKey) == 0 {
+		return nil, status.Errorf(codes.InvalidArgument, "row key must not be empty")
+	}
+
 	defer tbl.write()
 	verifPoint("MutateRow.beforeLock", ctx)
 	tbl.mu.Lock()
@@ -1043,6 +1047,13 @@ func (s *server) MutateRows(req *btpb.MutateRowsRequest, stream btpb.Bigtable_Mu
 	now := s.clock()
 
 	for i, entry := range req.Entries {
+		if len(entry.RowKey) == 0 {
+			res.Entries[i] = &btpb.MutateRowsResponse_Entry{
+				Index:  int64(i),
+				Status: &statpb.Status{Code: int32(codes.InvalidArgument), Message: "row key must not be empty"},
+			}
+			continue
+		}
 		r := tbl.getOrCreateRow(entry.RowKey)
 		verifPoint("MutateRows.afterRead", stream.Context(), entry.RowKey)
 
@@ -1070,6 +1081,9 @@ func (s *server) CheckAndMutateRow(ctx context.Context, req *btpb.CheckAndMutate
 		return nil, status.Errorf(codes.NotFound, "table %q not found", req.TableName)
 	}
 	res := &btpb.CheckAndMutateRowResponse{}
+	if len(req.RowKey) == 0 {
+		return nil, status.Errorf(codes.InvalidArgument, "row key must not be empty")
+	}
 
 	defer tbl.write()
 	verifPoint("CheckAndMutateRow.beforeLock", ctx)
@@ -1264,6 +1278,10 @@ func (s *server) ReadModifyWriteRow(ctx context.Context, req *btpb.ReadModifyWri
 	s.mu.Unlock()
 	if !ok {
 		return nil, status.Errorf(codes.NotFound, "table %q not found", req.TableName)
+	}
+
+	if len(req.RowKey) == 0 {
+		return nil, status.Errorf(codes.InvalidArgument, "row key must not be empty")
 	}
 
 	defer tbl.write()
